@@ -510,6 +510,19 @@ def build(inp) -> Case:
                     hq.append(f"cm:{q(ts[h[1]])}")
             lines.append(line("gcm", **src, ts=ql(ts), ogcm=il(gm.reshape(-1).tolist()), ocm=il(om.reshape(-1).tolist()),
                               qs="[" + ",".join(hq) + "]"))
+        # the caller's threshold buffer refilled IN PLACE between two calls (a sweep buffer): the second answer is for the
+        # thresholds the buffer holds NOW (here: the same thresholds reversed, so the 1-d answer reversed along its axis)
+        if G > 0 and T >= 2 and gm.shape == (G, T, 2, 2):
+            buf = np.array(ts, dtype=float)
+            common.call(gs.group_cm, np.array([0.125, -3.5]))  # something else in between: `buf` is a first-time argument
+            common.call(gs.group_cm, buf)
+            buf[:] = buf[::-1].copy()
+            rb = common.call(gs.group_cm, buf)
+            evals += 2
+            if rb[0] == "exc" or not np.array_equal(np.asarray(rb[1]), gm[:, ::-1]):
+                fail("group-cm", f"group_cm(buffer) after the buffer was reversed in place returned "
+                     f"{_short(np.asarray(rb[1]).reshape(-1).tolist(), 12) if rb[0] == 'ok' else rb[1:]}; for the thresholds it holds now "
+                     f"the matrices are {_short(gm[:, ::-1].reshape(-1).tolist(), 12)}", "group-cm-buffer-reused")
         # thresholds as an N-d array: group_cm has shape (G,) + X + (2, 2) and entry [g, x] is the matrix of group g at
         # threshold x, i.e. the 1-d answer (judged against the model above) reshaped
         if G > 0 and T >= 1 and gm.shape == (G, T, 2, 2):
